@@ -135,19 +135,27 @@ def showFact (f : Spec.FileWF.Fact) : String :=
 
 /-! ### reader side -/
 
-/-- `num:value` pairs: the integer objects an indirect /Length may refer to -/
-def lenGetter (tbl : List (Nat × Int)) : Obj → Option Int
-  | .int n => some n
-  | .ref n _ => (tbl.find? fun e => e.1 == n).map fun e => e.2
-  | _ => none
+/-- `num:value` pairs: the integer objects an indirect /Length may refer to; `num:!` = resolving
+    this reference meets a read error, `num:e` = the end of the data (bare io.EOF).  Anything else
+    is a malformed-file error ("not an integer"). -/
+def lenGetter (tbl : List (Nat × Except Err Int)) : Obj → Except Err Int
+  | .int n => .ok n
+  | .ref n _ =>
+    match tbl.find? fun e => e.1 == n with
+    | some (_, r) => r
+    | none => .error .malformed
+  | _ => .error .malformed
 
-def parseLens (s : String) : Option (List (Nat × Int)) :=
+def parseLens (s : String) : Option (List (Nat × Except Err Int)) :=
   if s == "-" then some [] else
   (s.splitOn ",").mapM fun item =>
     match item.splitOn ":" with
-    | [a, b] => match a.toNat?, parseInt b with
-      | some x, some y => some (x, y)
-      | _, _ => none
+    | [a, b] =>
+      if b == "!" then a.toNat?.map fun x => (x, .error .io)
+      else if b == "e" then a.toNat?.map fun x => (x, .error .eof)
+      else match a.toNat?, parseInt b with
+        | some x, some y => some (x, .ok y)
+        | _, _ => none
     | _ => none
 
 def handle (args : List String) : String :=
